@@ -1249,6 +1249,16 @@ fn extract_all<K: Kmer>(s: &[u8], exts: Exts, positions: &[usize], off: usize, t
         o["container"] = json!("Lmer4");
         out.push(o);
     }
+    if n <= 156 {
+        let mut o = extract_from::<K, _>(&<Lmer<[u64; 5]> as Vmer>::from_slice(s), exts, positions);
+        o["container"] = json!("Lmer5");
+        out.push(o);
+    }
+    if n <= 188 {
+        let mut o = extract_from::<K, _>(&<Lmer<[u64; 6]> as Vmer>::from_slice(s), exts, positions);
+        o["container"] = json!("Lmer6");
+        out.push(o);
+    }
     // bulk constructors
     let ascii: Vec<u8> = s.iter().map(|b| b"ACGT"[*b as usize]).collect();
     out.push(json!({"container":"kmers_from_bytes","kmers": K::kmers_from_bytes(s).iter().map(mer_bases).collect::<Vec<_>>(), "bulk": true}));
@@ -1259,7 +1269,8 @@ fn extract_all<K: Kmer>(s: &[u8], exts: Exts, positions: &[usize], off: usize, t
 pub fn extract_event(sink: &Sink, r: &mut Rng, thorough: bool) {
     let ks = [2usize, 3, 4, 5, 8, 16, 20, 31, 32, 48, 64];
     let k = *r.pick(&ks);
-    let lens: Vec<usize> = vec![0, 1, k.saturating_sub(1), k, k + 1, 31, 32, 33, 63, 64, 65, 66, 96, 100, k + 31, k + 32, k + 33];
+    // (124 / 156 / 188 = capacity of 4 / 5 / 6-word fixed-size strings; 127-129: their length no longer fits 7 bits)
+    let lens: Vec<usize> = vec![0, 1, k.saturating_sub(1), k, k + 1, 31, 32, 33, 63, 64, 65, 66, 96, 100, k + 31, k + 32, k + 33, 124, 127, 128, 129, 156, 160, 188];
     let n = if r.chance(2, 3) { *r.pick(&lens) } else { r.range(0, 100) };
     let s = r.dna(n, &[0, 1, 2, 3]);
     let exts = Exts::new(if n <= 12 || r.chance(1, 2) { (r.next() & 0xff) as u8 } else { 0 });
